@@ -17,6 +17,7 @@ import (
 	"os/exec"
 	"path/filepath"
 	"strings"
+	"sync"
 	"time"
 
 	"github.com/slackhq/nebula/cert"
@@ -90,12 +91,24 @@ func csVerdicts(signer cert.Certificate, rc cert.Certificate) (string, []map[str
 }
 
 func runCertSign(c *hx.Ctx) {
+	// the nebula-cert binary is built in the background while the API cases are generated
+	bin := filepath.Join(c.Out, "bin", "nebula-cert")
+	buildDone := make(chan string, 1)
+	go func() {
+		out, err := exec.Command("go", "build", "-o", bin, "github.com/slackhq/nebula/cmd/nebula-cert").CombinedOutput()
+		if err != nil {
+			buildDone <- fmt.Sprintf("building nebula-cert: %v\n%s", err, out)
+			return
+		}
+		buildDone <- ""
+	}()
 	u := cvBuildUniverse(c)
 	cw := c.NewCaseWriter("From NV Require Import model.Cert corr.CertSign_corr.\n"+u.preamble, "CertSign_corr.case", "CertSign_corr.check_case", 150)
 	stats := map[string]int{}
 	var failures []map[string]any
 
-	// ---- 1. p256.Normalize / Swap / IsNormalized on chosen s ------------------------------------------
+	// ---- 1. p256.Normalize / Swap / IsNormalized on chosen s (emitted after the corpus witnesses) -------
+	doNormalize := func() {
 	n := p256.VerifN()
 	half := p256.VerifHalfN()
 	one := big.NewInt(1)
@@ -146,6 +159,7 @@ func runCertSign(c *hx.Ctx) {
 		cw.Add(hx.App("CertSign_corr.CNorm", s.String(), opt(ns), opt(ss), hx.Bool(low), hx.Bool(lowAfter)), "normalize", inRange,
 			map[string]any{"op": "normalize", "s": s.String(), "normalized": fmt.Sprint(ns), "swapped": fmt.Sprint(ss), "low": low})
 	}
+	}
 
 	// ---- 2. Sign / SignWith ---------------------------------------------------------------------------
 	keysOther := map[cert.Curve]*cvKey{cert.Curve_CURVE25519: cvNewKey(c, cert.Curve_CURVE25519), cert.Curve_P256: cvNewKey(c, cert.Curve_P256)}
@@ -175,7 +189,7 @@ func runCertSign(c *hx.Ctx) {
 			}
 		}()
 		res := hx.None()
-		desc := map[string]any{"op": "sign", "kind": kind, "tbs": tbsJS, "key_curve": int(kcurve), "key_is_signers": keymatch, "via": map[bool]string{true: "Sign", false: "SignWith"}[viaSign], "accepted": err == nil}
+		desc := map[string]any{"op": "sign", "kind": kind, "tbs": tbsJS, "key_curve": int(kcurve), "tbs_curve": int(t.Curve), "key_is_signers": keymatch, "via": map[bool]string{true: "Sign", false: "SignWith"}[viaSign], "accepted": err == nil}
 		if signer != nil {
 			desc["signer"] = cvCertJSON(signer)
 		}
@@ -209,9 +223,25 @@ func runCertSign(c *hx.Ctx) {
 		}
 	}
 
+	// corpus first: the known finding F23 (signer certificate of one curve, key of the other curve) in both
+	// directions, through Sign and through SignWith, on the unconstrained v2 CAs
+	for _, via := range []bool{true, false} {
+		for _, ca := range u.cas {
+			if !strings.HasPrefix(ca.kind, "open-") || ca.c.Version() != cert.Version2 {
+				continue
+			}
+			key := keysOther[1-ca.c.Curve()]
+			t := &cert.TBSCertificate{Version: cert.Version2, Name: "f23-witness", Networks: []netip.Prefix{cvPfx("10.1.2.3/24")},
+				NotBefore: ca.c.NotBefore().Add(time.Hour), NotAfter: ca.c.NotBefore().Add(48 * time.Hour),
+				PublicKey: u.leafPub[key.curve][0], Curve: key.curve}
+			emitSign("signer-curve-mismatch", ca.c, ca.name, ca.key, key, key.curve, t, via)
+		}
+	}
+	doNormalize()
+
 	for cw.Total() < c.N {
 		ca := u.cas[c.Intn(len(u.cas))]
-		o := cvLeafOpt{version: ca.c.Version(), curve: ca.c.Curve(), groups: mInside, nets: mInside, unsafe: mInside, signKey: ca.key}
+		o := cvLeafOpt{version: ca.c.Version(), curve: ca.c.Curve(), groups: cvMInside, nets: cvMInside, unsafe: cvMInside, signKey: ca.key}
 		pick3 := func(in, edge int, outs ...int) int {
 			r := c.Intn(10)
 			if r < 6 {
@@ -222,15 +252,15 @@ func runCertSign(c *hx.Ctx) {
 			}
 			return outs[c.Intn(len(outs))]
 		}
-		if c.Chance(0.45) { // cross the constraints
-			o.groups = pick3(mInside, mEdge, mOutAdjacent, mNone)
-			o.nets = pick3(mInside, mEdge, mOutWider, mOutAdjacent, mOutFamily)
-			o.unsafe = pick3(mInside, mEdge, mOutWider, mOutAdjacent, mNone, mNone)
+		if c.Chance(0.35) { // cross the constraints
+			o.groups = pick3(cvMInside, cvMEdge, cvMOutAdjacent, cvMNone)
+			o.nets = pick3(cvMInside, cvMEdge, cvMOutWider, cvMOutAdjacent, cvMOutFamily)
+			o.unsafe = pick3(cvMInside, cvMEdge, cvMOutWider, cvMOutAdjacent, cvMNone, cvMNone)
 			o.window = []int{0, 0, 0, 4, 4, 1, 1, 2, 3, 5}[c.Intn(10)]
 		} else { // inside or exactly on the edge in every dimension
-			o.groups = []int{mInside, mEdge, mNone}[c.Intn(3)]
-			o.nets = []int{mInside, mInside, mEdge}[c.Intn(3)]
-			o.unsafe = []int{mInside, mEdge, mNone}[c.Intn(3)]
+			o.groups = []int{cvMInside, cvMEdge, cvMNone}[c.Intn(3)]
+			o.nets = []int{cvMInside, cvMInside, cvMEdge}[c.Intn(3)]
+			o.unsafe = []int{cvMInside, cvMEdge, cvMNone}[c.Intn(3)]
 			o.window = []int{0, 0, 4, 1, 5}[c.Intn(5)]
 		}
 		o.inMemory = c.Chance(0.3) // sub-second bounds: the TBS is in memory anyway
@@ -242,7 +272,7 @@ func runCertSign(c *hx.Ctx) {
 		var signer cert.Certificate = ca.c
 		signerLit := ca.name
 		t := cvLeafTBS(c, u, ca, o)
-		switch c.Intn(40) {
+		switch c.Intn(64) {
 		case 0:
 			t.IsCA = true
 			kind = "sign-ca-with-ca"
@@ -262,7 +292,7 @@ func runCertSign(c *hx.Ctx) {
 			key = keysOther[1-ca.c.Curve()]
 			t.Curve = key.curve
 			t.PublicKey = u.leafPub[key.curve][0]
-			kind = "foreign-key-other-curve"
+			kind = "signer-curve-mismatch"
 		case 5: // key curve differs from the TBS curve
 			t.Curve = 1 - ca.c.Curve()
 			kind = "key-curve-mismatch"
@@ -314,12 +344,15 @@ func runCertSign(c *hx.Ctx) {
 			}
 			kind = "validate-name-group"
 		case 15: // a leaf certificate used as signer: SignWith does not ask for IsCA
-			lo := cvLeafOpt{version: ca.c.Version(), curve: ca.c.Curve(), groups: mInside, nets: mInside, unsafe: mNone, signKey: ca.key}
+			lo := cvLeafOpt{version: ca.c.Version(), curve: ca.c.Curve(), groups: cvMInside, nets: cvMInside, unsafe: cvMNone, signKey: ca.key}
 			if ca.c.Curve() == cert.Curve_P256 {
 				lo.sigForm = 1
 			}
 			lc, _ := cvLeaf(c, u, ca, lo)
 			signer, signerLit = lc, cvCertLit(lc, "", u.names)
+			// the request is drawn relative to that leaf, mostly inside it
+			lo2 := cvLeafOpt{version: lc.Version(), curve: lc.Curve(), groups: cvMInside, nets: cvMInside, unsafe: cvMNone, window: []int{0, 1, 4, 3}[c.Intn(4)]}
+			t = cvLeafTBS(c, u, &cvCA{c: lc, key: ca.key}, lo2)
 			kind = "leaf-as-signer"
 		}
 		kcurve := key.curve
@@ -337,9 +370,8 @@ func runCertSign(c *hx.Ctx) {
 	}
 
 	// ---- 3. the nebula-cert binary ----------------------------------------------------------------------
-	bin := filepath.Join(c.Out, "bin", "nebula-cert")
-	if out, err := exec.Command("go", "build", "-o", bin, "github.com/slackhq/nebula/cmd/nebula-cert").CombinedOutput(); err != nil {
-		panic(fmt.Sprintf("building nebula-cert: %v\n%s", err, out))
+	if msg := <-buildDone; msg != "" {
+		panic(msg)
 	}
 	dir := filepath.Join(c.Out, "cli")
 	os.RemoveAll(dir)
@@ -365,8 +397,8 @@ func runCertSign(c *hx.Ctx) {
 	}
 	type cliCA struct {
 		curve, groups, nets, unsafe string
-		version                    int
-		dur                        string
+		version                     int
+		dur                         string
 	}
 	cliCAs := []cliCA{
 		{"25519", "", "", "", 2, "100h"},
@@ -380,144 +412,176 @@ func runCertSign(c *hx.Ctx) {
 		groups, nets, unsafe, dur string
 		version                   int
 	}
+	if c.Tier != "thorough" {
+		cliCAs = cliCAs[:4]
+	}
+	type cliOut struct {
+		lit, kind string
+		nontriv   bool
+		desc      any
+	}
+	outs := make([][]cliOut, len(cliCAs))
+	errs := make([]any, len(cliCAs))
+	var wg sync.WaitGroup
 	for i, ca := range cliCAs {
-		crt, key := fmt.Sprintf("ca%d.crt", i), fmt.Sprintf("ca%d.key", i)
-		args := []string{"ca", "-name", fmt.Sprintf("cli-ca-%d", i), "-curve", ca.curve, "-version", fmt.Sprint(ca.version), "-duration", ca.dur, "-out-crt", crt, "-out-key", key}
-		if ca.groups != "" {
-			args = append(args, "-groups", ca.groups)
-		}
-		if ca.nets != "" {
-			args = append(args, "-networks", ca.nets)
-		}
-		if ca.unsafe != "" {
-			args = append(args, "-unsafe-networks", ca.unsafe)
-		}
-		before := time.Now()
-		out, ok := run(args...)
-		after := time.Now()
-		cac := readCert(filepath.Join(dir, crt))
-		if !ok || cac == nil {
-			panic(fmt.Sprintf("nebula-cert ca failed: %s", out))
-		}
-		self := cac.CheckSignature(cac.PublicKey())
-		pool := cert.NewCAPool()
-		addErr := pool.AddCA(cac)
-		cw.Add(hx.App("CertSign_corr.CCliCA", cvCertLit(cac, "", u.names), hx.Bool(csIsNormalized(cac)), hx.Bool(self), hx.Bool(addErr == nil),
-			cvTimeLit(before), cvTimeLit(after)), "cli-ca", true,
-			map[string]any{"op": "cli-ca", "args": args, "cert": cvCertJSON(cac), "self_signed": self, "low_s": csIsNormalized(cac)})
-		// leaves under this CA: inside, and one violation per dimension
-		firstNet := func(s string, v6 bool) string {
-			for _, x := range strings.Split(s, ",") {
-				if p, err := netip.ParsePrefix(x); err == nil && p.Addr().Is6() == v6 {
-					return x
+		wg.Add(1)
+		go func(i int, ca cliCA) {
+			defer wg.Done()
+			defer func() {
+				if r := recover(); r != nil {
+					errs[i] = r
 				}
+			}()
+			emit := func(lit, kind string, nontriv bool, desc any) {
+				outs[i] = append(outs[i], cliOut{lit, kind, nontriv, desc})
 			}
-			return ""
-		}
-		in4 := "10.42.7.9/24"
-		if ca.nets != "" {
-			if f := firstNet(ca.nets, false); f != "" {
-				p := netip.MustParsePrefix(f)
-				a := p.Addr().As4()
-				a[3] = 9
-				in4 = netip.PrefixFrom(netip.AddrFrom4(a), 24).String()
-			} else {
-				in4 = ""
+			crt, key := fmt.Sprintf("ca%d.crt", i), fmt.Sprintf("ca%d.key", i)
+			args := []string{"ca", "-name", fmt.Sprintf("cli-ca-%d", i), "-curve", ca.curve, "-version", fmt.Sprint(ca.version), "-duration", ca.dur, "-out-crt", crt, "-out-key", key}
+			if ca.groups != "" {
+				args = append(args, "-groups", ca.groups)
 			}
-		}
-		in6 := ""
-		if ca.version == 2 {
-			if f := firstNet(ca.nets, true); f != "" {
-				p := netip.MustParsePrefix(f)
-				a := p.Addr().As16()
-				a[15] = 9
-				in6 = netip.PrefixFrom(netip.AddrFrom16(a), 80).String()
-			} else if ca.nets == "" {
-				in6 = "fd00:9::9/64"
+			if ca.nets != "" {
+				args = append(args, "-networks", ca.nets)
 			}
-		}
-		inNets := strings.Trim(in4+","+in6, ",")
-		inGroup := ""
-		if ca.groups != "" {
-			inGroup = strings.Split(ca.groups, ",")[0]
-		}
-		inUnsafe := ""
-		if f := firstNet(ca.unsafe, false); f != "" && in4 != "" {
-			p := netip.MustParsePrefix(f)
-			inUnsafe = netip.PrefixFrom(p.Addr(), p.Bits()+4).Masked().String()
-		}
-		leaves := []cliLeaf{
-			{inGroup, inNets, inUnsafe, "", 0},
-			{inGroup, inNets, "", "10h", 0},
-			{"", inNets, "", "1s", 0},
-			{inGroup + ",zz-not-on-ca", inNets, "", "", 0},
-			{inGroup, "203.0.113.5/24", "", "", 0},
-			{inGroup, inNets, "198.51.100.0/24", "", 0},
-			{inGroup, inNets, "", "2000h", 0},
-			{inGroup, inNets, "", "", 3 - ca.version},
-		}
-		for j, lf := range leaves {
-			if lf.nets == "" {
-				continue
+			if ca.unsafe != "" {
+				args = append(args, "-unsafe-networks", ca.unsafe)
 			}
-			lcrt, lkey := fmt.Sprintf("l%d_%d.crt", i, j), fmt.Sprintf("l%d_%d.key", i, j)
-			a := []string{"sign", "-ca-crt", crt, "-ca-key", key, "-name", fmt.Sprintf("cli-leaf-%d-%d", i, j), "-networks", lf.nets, "-out-crt", lcrt, "-out-key", lkey}
-			if g := strings.Trim(lf.groups, ","); g != "" {
-				a = append(a, "-groups", g)
+			before := time.Now()
+			out, ok := run(args...)
+			after := time.Now()
+			cac := readCert(filepath.Join(dir, crt))
+			if !ok || cac == nil {
+				panic(fmt.Sprintf("nebula-cert ca failed: %s", out))
 			}
-			if lf.unsafe != "" {
-				a = append(a, "-unsafe-networks", lf.unsafe)
+			self := cac.CheckSignature(cac.PublicKey())
+			pool := cert.NewCAPool()
+			addErr := pool.AddCA(cac)
+			emit(hx.App("CertSign_corr.CCliCA", cvCertLit(cac, "", u.names), hx.Bool(csIsNormalized(cac)), hx.Bool(self), hx.Bool(addErr == nil),
+				cvTimeLit(before), cvTimeLit(after)), "cli-ca", true,
+				map[string]any{"op": "cli-ca", "args": args, "cert": cvCertJSON(cac), "self_signed": self, "low_s": csIsNormalized(cac)})
+			// leaves under this CA: inside, and one violation per dimension
+			firstNet := func(s string, v6 bool) string {
+				for _, x := range strings.Split(s, ",") {
+					if p, err := netip.ParsePrefix(x); err == nil && p.Addr().Is6() == v6 {
+						return x
+					}
+				}
+				return ""
 			}
-			if lf.dur != "" {
-				a = append(a, "-duration", lf.dur)
-			}
-			ver := ca.version
-			if lf.version != 0 {
-				ver = lf.version
-				a = append(a, "-version", fmt.Sprint(lf.version))
-			}
-			// what is asked for, as a TBS whose NotBefore is the instant before the command starts
-			tb := time.Now()
-			t := &cert.TBSCertificate{Version: cert.Version(ver), Name: fmt.Sprintf("cli-leaf-%d-%d", i, j), Curve: cac.Curve(), PublicKey: []byte{1},
-				NotBefore: tb, NotAfter: cac.NotAfter().Add(-time.Second)}
-			if lf.dur != "" {
-				d, _ := time.ParseDuration(lf.dur)
-				t.NotAfter = tb.Add(d)
-			}
-			var v4, v6 []netip.Prefix
-			for _, x := range strings.Split(lf.nets, ",") {
-				if p := netip.MustParsePrefix(x); p.Addr().Is4() {
-					v4 = append(v4, p)
+			in4 := "10.42.7.9/24"
+			if ca.nets != "" {
+				if f := firstNet(ca.nets, false); f != "" {
+					p := netip.MustParsePrefix(f)
+					a := p.Addr().As4()
+					a[3] = 9
+					in4 = netip.PrefixFrom(netip.AddrFrom4(a), 24).String()
 				} else {
-					v6 = append(v6, p)
+					in4 = ""
 				}
 			}
-			t.Networks = append(v4, v6...)
-			if lf.unsafe != "" {
-				for _, x := range strings.Split(lf.unsafe, ",") {
-					t.UnsafeNetworks = append(t.UnsafeNetworks, netip.MustParsePrefix(x))
+			in6 := ""
+			if ca.version == 2 {
+				if f := firstNet(ca.nets, true); f != "" {
+					p := netip.MustParsePrefix(f)
+					a := p.Addr().As16()
+					a[15] = 9
+					in6 = netip.PrefixFrom(netip.AddrFrom16(a), 80).String()
+				} else if ca.nets == "" {
+					in6 = "fd00:9::9/64"
 				}
 			}
-			for _, g := range strings.Split(strings.Trim(lf.groups, ","), ",") {
-				if g != "" {
-					t.Groups = append(t.Groups, g)
+			inNets := strings.Trim(in4+","+in6, ",")
+			inGroup := ""
+			if ca.groups != "" {
+				inGroup = strings.Split(ca.groups, ",")[0]
+			}
+			inUnsafe := ""
+			if f := firstNet(ca.unsafe, false); f != "" && in4 != "" {
+				p := netip.MustParsePrefix(f)
+				inUnsafe = netip.PrefixFrom(p.Addr(), p.Bits()+4).Masked().String()
+			}
+			leaves := []cliLeaf{
+				{inGroup, inNets, inUnsafe, "", 0},
+				{inGroup, inNets, "", "10h", 0},
+				{"", inNets, "", "1s", 0},
+				{inGroup + ",zz-not-on-ca", inNets, "", "", 0},
+				{inGroup, "203.0.113.5/24", "", "", 0},
+				{inGroup, inNets, "198.51.100.0/24", "", 0},
+				{inGroup, inNets, "", "2000h", 0},
+				{inGroup, inNets, "", "", 3 - ca.version},
+			}
+			for j, lf := range leaves {
+				if lf.nets == "" {
+					continue
 				}
+				lcrt, lkey := fmt.Sprintf("l%d_%d.crt", i, j), fmt.Sprintf("l%d_%d.key", i, j)
+				a := []string{"sign", "-ca-crt", crt, "-ca-key", key, "-name", fmt.Sprintf("cli-leaf-%d-%d", i, j), "-networks", lf.nets, "-out-crt", lcrt, "-out-key", lkey}
+				if g := strings.Trim(lf.groups, ","); g != "" {
+					a = append(a, "-groups", g)
+				}
+				if lf.unsafe != "" {
+					a = append(a, "-unsafe-networks", lf.unsafe)
+				}
+				if lf.dur != "" {
+					a = append(a, "-duration", lf.dur)
+				}
+				ver := ca.version
+				if lf.version != 0 {
+					ver = lf.version
+					a = append(a, "-version", fmt.Sprint(lf.version))
+				}
+				// what is asked for, as a TBS whose NotBefore is the instant before the command starts
+				tb := time.Now()
+				t := &cert.TBSCertificate{Version: cert.Version(ver), Name: fmt.Sprintf("cli-leaf-%d-%d", i, j), Curve: cac.Curve(), PublicKey: []byte{1},
+					NotBefore: tb, NotAfter: cac.NotAfter().Add(-time.Second)}
+				if lf.dur != "" {
+					d, _ := time.ParseDuration(lf.dur)
+					t.NotAfter = tb.Add(d)
+				}
+				var v4, v6 []netip.Prefix
+				for _, x := range strings.Split(lf.nets, ",") {
+					if p := netip.MustParsePrefix(x); p.Addr().Is4() {
+						v4 = append(v4, p)
+					} else {
+						v6 = append(v6, p)
+					}
+				}
+				t.Networks = append(v4, v6...)
+				if lf.unsafe != "" {
+					for _, x := range strings.Split(lf.unsafe, ",") {
+						t.UnsafeNetworks = append(t.UnsafeNetworks, netip.MustParsePrefix(x))
+					}
+				}
+				for _, g := range strings.Split(strings.Trim(lf.groups, ","), ",") {
+					if g != "" {
+						t.Groups = append(t.Groups, g)
+					}
+				}
+				cliRefusesV1 := ver == 1 && (len(v4) != 1 || len(v6) > 0) // nebula-cert's own v1 argument check
+				out, ok := run(a...)
+				ta := time.Now()
+				lc := readCert(filepath.Join(dir, lcrt))
+				res := hx.None()
+				desc := map[string]any{"op": "cli-sign", "args": a, "accepted": ok && lc != nil, "output": strings.TrimSpace(out)}
+				if ok && lc != nil {
+					verd, vjs, _ := csVerdicts(cac, lc)
+					res = hx.Some(hx.Tuple(cvCertLit(lc, "", u.names), hx.Bool(csIsNormalized(lc)), hx.Bool(lc.CheckSignature(cac.PublicKey())), verd))
+					desc["result"] = cvCertJSON(lc)
+					desc["verify"] = vjs
+				} else if ok != (lc != nil) {
+					panic("nebula-cert sign: exit status and certificate file disagree: " + out)
+				}
+				emit(hx.App("CertSign_corr.CCliSign", cvCertLit(cac, "", u.names), csTbsLit(t), hx.Bool(cliRefusesV1), cvTimeLit(ta), res), "cli-sign", ok, desc)
 			}
-			cliRefusesV1 := ver == 1 && (len(v4) != 1 || len(v6) > 0) // nebula-cert's own v1 argument check
-			out, ok := run(a...)
-			ta := time.Now()
-			lc := readCert(filepath.Join(dir, lcrt))
-			res := hx.None()
-			desc := map[string]any{"op": "cli-sign", "args": a, "accepted": ok && lc != nil, "output": strings.TrimSpace(out)}
-			if ok && lc != nil {
-				verd, vjs, _ := csVerdicts(cac, lc)
-				res = hx.Some(hx.Tuple(cvCertLit(lc, "", u.names), hx.Bool(csIsNormalized(lc)), hx.Bool(lc.CheckSignature(cac.PublicKey())), verd))
-				desc["result"] = cvCertJSON(lc)
-				desc["verify"] = vjs
-			} else if ok != (lc != nil) {
-				panic("nebula-cert sign: exit status and certificate file disagree: " + out)
-			}
-			cw.Add(hx.App("CertSign_corr.CCliSign", cvCertLit(cac, "", u.names), csTbsLit(t), hx.Bool(cliRefusesV1), cvTimeLit(ta), res), "cli-sign", ok, desc)
+		}(i, ca)
+	}
+	wg.Wait()
+	for i := range cliCAs {
+		if errs[i] != nil {
+			panic(errs[i])
+		}
+		for _, o := range outs[i] {
+			cw.Add(o.lit, o.kind, o.nontriv, o.desc)
 		}
 	}
 	os.RemoveAll(filepath.Join(c.Out, "bin"))
@@ -527,7 +591,7 @@ func runCertSign(c *hx.Ctx) {
 		cw.Meta("failures", failures)
 	}
 	cw.Close("p256.Normalize/Swap/IsNormalized on edge and random s; TBSCertificate.Sign and SignWith over 28 signer CAs x TBS crossing each constraint " +
-		"(inside/edge/outside), CA flag, self-signing, key of another CA / other curve, key-vs-TBS curve mismatch, unknown version/curve, every validate rule; " +
+		"(inside/edge/outside), CA flag, self-signing, key of another CA, key of the other curve than the signer certificate's (known finding F23, emitted first), key-vs-TBS curve mismatch, unknown version/curve, every validate rule; " +
 		"each issued certificate verified with the real VerifyCertificate against a pool of its signer at nb, na, middle, nb-1ns, na+1ns and checked for low-S; " +
 		"nebula-cert ca / sign binary on 6 CAs x 8 requests; non-trivial = certificate issued (or 0 < s < n); distinct by literal")
 }
